@@ -2,6 +2,7 @@ package props
 
 import (
 	"fmt"
+	"regexp"
 	"sort"
 	"strings"
 	"testing"
@@ -62,6 +63,25 @@ func checkC17(c c17Case) error {
 }
 
 func init() { reg("C17", "alias", checkC17) }
+
+// c17UsedBehindBlank: some occurrence of the word txt stands directly behind
+// an alias whose value ends in a blank (there it is examined).
+func c17UsedBehindBlank(s *gen.Stream, aliases map[string]string, txt string) bool {
+	found := false
+	s.Walk(func(st *gen.Stream, i int, tk *gen.Tok) {
+		if i == 0 || tk.Kind != gen.KWord || len(tk.Pieces) != 1 || tk.Pieces[0].Text != txt {
+			return
+		}
+		if pn, ok := plainName(st.Toks[i-1]); ok {
+			if v, isAlias := aliases[pn]; isAlias && strings.TrimRight(v, " \t") != v {
+				found = true
+			}
+		}
+	})
+	return found
+}
+
+var c17AssignShape = regexp.MustCompile(`^[A-Za-z_][A-Za-z0-9_]*=[A-Za-z0-9_./-]*$`)
 
 func plainName(t *gen.Tok) (string, bool) {
 	if t.Kind != gen.KWord || len(t.Pieces) != 1 || t.Pieces[0].Sub != nil {
@@ -289,6 +309,27 @@ func TestC17(t *testing.T) {
 		// they must never be replaced
 		untouched := 0
 		s.Walk(func(st2 *gen.Stream, i int, tk *gen.Tok) {
+			if tk.Kind == gen.KWord && len(tk.Pieces) == 1 && tk.Pieces[0].Sub == nil && !tk.CmdPos {
+				// a word shaped like an assignment ("x=a"): never a command name,
+				// whatever the alias table says
+				if txt := tk.Pieces[0].Text; c17AssignShape.MatchString(txt) && rapid.IntRange(0, 2).Draw(rt, "untouched_assign") == 0 {
+					// (not behind an alias that ends in a blank: that word is examined)
+					afterBlank := false
+					if i > 0 {
+						if pn, ok := plainName(st2.Toks[i-1]); ok {
+							if v, isAlias := f.aliases[pn]; isAlias && strings.TrimRight(v, " \t") != v {
+								afterBlank = true
+							}
+						}
+					}
+					if _, defined := f.aliases[txt]; !defined && !afterBlank && !c17UsedBehindBlank(s, f.aliases, txt) {
+						f.aliases[txt] = "MUST_NOT_APPEAR ;; ("
+						untouched++
+						f.stats["alias_named_like_an_assignment"]++
+					}
+					return
+				}
+			}
 			nm, ok := plainName(tk)
 			if !ok || tk.CmdPos || f.used[nm] || strings.HasPrefix(nm, "al") {
 				return
